@@ -3,7 +3,9 @@ import RF.Props.C06
 import RF.Props.C07
 import RF.Props.C09
 import RF.Props.C12
+import RF.Props.C13
 import RF.Props.C17
 import RF.Props.C18
 import RF.Props.C19
+import RF.Props.C19cur
 import RF.Props.C20
